@@ -19,10 +19,10 @@ Definition pval (P b : Z) (n : nat) (f : nat -> list Z) (size : nat) : list Z :=
 Definition limz (n : nat) (a : plimbs) (j : nat) : list Z := if Nat.ltb j (length a) then lim a j else pzero n.
 Definition acol (n : nat) (a : cols_t) (ci l : nat) : list Z := limz n (col a ci) l.
 
-(* phase under the secret family S (S 0 = 1 for a GLWE phase; the algebra never uses it):
-   sum_{co<cols} val(column co) (x) S co *)
-Definition phase_f (P b : Z) (n cols size : nat) (R : nat -> nat -> list Z) (S : nat -> list Z) : list Z :=
-  psumf n (fun co => pmul (pval P b n (R co) size) (S co)) cols.
+(* phase under the secret family Sk (Sk 0 = 1 for a GLWE phase; the algebra never uses it):
+   sum_{co<cols} val(column co) (x) Sk co *)
+Definition phase_f (P b : Z) (n cols size : nat) (R : nat -> nat -> list Z) (Sk : nat -> list Z) : list Z :=
+  psumf n (fun co => pmul (pval P b n (R co) size) (Sk co)) cols.
 
 (* sizes of iteration di of the digit-grouped branch, as in Gadget.gp_step *)
 Definition sz_a (a_size dsize dnum di : nat) (clamp : bool) : nat :=
@@ -59,12 +59,12 @@ Section PhaseSpec.
 Variables (P b : Z) (n cin cols_out msize a_size dsize dnum : nat).
 Variable A : nat -> nat -> list Z.
 Variable K : pmat.
-Variable S : nat -> list Z.             (* target secret family, S 0 = 1 *)
+Variable Sk : nat -> list Z.            (* target secret family, Sk 0 = 1 *)
 
 (* the limbs [lo, lo+len) of key cell q, valued at their own position, under S *)
 Definition kwin (q lo len : nat) : list Z :=
   psumf n (fun co => pmul (psumf n (fun i => pscale (2 ^ (P - (Z.of_nat (lo + i) + 1) * b)) (K q ((lo + i) * cols_out + co)%nat)) len)
-                          (S co)) cols_out.
+                          (Sk co)) cols_out.
 (* phase of key cell q = (row, ci) : all msize limbs *)
 Definition kphase (q : nat) : list Z := kwin q 0 msize.
 (* the part of cell q that iteration di of the product sees: limbs [di, di + win_len di) *)
@@ -72,9 +72,10 @@ Definition ktrunc (q di : nat) : list Z := kwin q di (win_len msize dsize di).
 (* the limbs the product of digit di drops at the end (only when dsize >= 3) *)
 Definition khigh (q di : nat) : list Z :=
   kwin q (di + win_len msize dsize di) (msize - (di + win_len msize dsize di)).
-(* the limbs j' < di, re-scaled: 2^(di b) 2^(P-(j'+1) b) = 2^P 2^((di-j'-1) b) : an integer multiple of 2^P *)
+(* the limbs j' < min(di, msize), re-scaled: 2^(di b) 2^(P-(j'+1) b) = 2^P 2^((di-j'-1) b) : an integer multiple of 2^P *)
 Definition klow_int (q di : nat) : list Z :=
-  psumf n (fun co => pmul (psumf n (fun j' => pscale (2 ^ (Z.of_nat (di - j' - 1) * b)) (K q (j' * cols_out + co)%nat)) di) (S co)) cols_out.
+  psumf n (fun co => pmul (psumf n (fun j' => pscale (2 ^ (Z.of_nat (di - j' - 1) * b)) (K q (j' * cols_out + co)%nat)) (Nat.min di msize))
+                          (Sk co)) cols_out.
 
 (* the digit group of row `row` of input column ci, as one polynomial with coefficients < D * sum_t 2^(t b):
    sum_{t<dsize} 2^((dsize-1-t) b) A ci (row*dsize+t) *)
@@ -91,16 +92,30 @@ Definition gadget_noise (e : nat -> nat -> list Z) : list Z :=
 Definition gadget_trunc : list Z :=
   psumf n (fun di => psumf n (fun row => psumf n (fun ci =>
      pmul (A ci (row * dsize + (dsize - di - 1))%nat) (pscale (2 ^ (Z.of_nat di * b)) (khigh (row * cin + ci)%nat di))) cin) dnum) dsize.
-(* the integer (multiple of 2^P) part *)
-Definition gadget_int (I : nat -> nat -> list Z) : list Z :=
+(* the integer (multiple of 2^P) part: from the integer parts I of the key rows, minus the key limbs j' < di *)
+Definition gadget_int_rows (I : nat -> nat -> list Z) : list Z :=
   psumf n (fun di => psumf n (fun row => psumf n (fun ci =>
-     pmul (A ci (row * dsize + (dsize - di - 1))%nat)
-          (psub (pscale (2 ^ (Z.of_nat di * b)) (I row ci)) (klow_int (row * cin + ci)%nat di))) cin) dnum) dsize.
+     pmul (A ci (row * dsize + (dsize - di - 1))%nat) (pscale (2 ^ (Z.of_nat di * b)) (I row ci))) cin) dnum) dsize.
+Definition gadget_int_low : list Z :=
+  psumf n (fun di => psumf n (fun row => psumf n (fun ci =>
+     pmul (A ci (row * dsize + (dsize - di - 1))%nat) (klow_int (row * cin + ci)%nat di)) cin) dnum) dsize.
+Definition gadget_int (I : nat -> nat -> list Z) : list Z := psub (gadget_int_rows I) gadget_int_low.
+(* the explicit error of the gadget product *)
+Definition gadget_err (e : nat -> nat -> list Z) : list Z := psub (gadget_noise e) gadget_trunc.
 End PhaseSpec.
 
 (* key-row hypothesis shared by C03 / C04: cell (row, ci) has phase  2^(P-(row+1) dsize b) src_ci + e_{row,ci} + 2^P I_{row,ci} *)
-Definition key_rows_ok (P b : Z) (n cin cols_out msize dsize dnum : nat) (K : pmat) (S : nat -> list Z)
+Definition key_rows_ok (P b : Z) (n cin cols_out msize dsize dnum : nat) (K : pmat) (Sk : nat -> list Z)
            (src : nat -> list Z) (e I : nat -> nat -> list Z) : Prop :=
   forall row ci, (row < dnum)%nat -> (ci < cin)%nat ->
-    kphase P b n cols_out msize K S (row * cin + ci)%nat
+    kphase P b n cols_out msize K Sk (row * cin + ci)%nat
     = padd (padd (pscale (2 ^ (P - (Z.of_nat row + 1) * Z.of_nat dsize * b)) (src ci)) (e row ci)) (pscale (2 ^ P) (I row ci)).
+
+(* ---- well-formedness of model-level inputs ---- *)
+(* ncols columns, each of exactly `size` limbs, every limb a polynomial of length n *)
+Definition wf_cols (n ncols size : nat) (c : cols_t) : Prop :=
+  length c = ncols /\
+  forall ci, (ci < ncols)%nat -> length (col c ci) = size /\ forall l, (l < size)%nat -> length (lim (col c ci) l) = n.
+Definition wf_pmat (n : nat) (m : pmat) : Prop := forall q c, length (m q c) = n.
+(* limb family of a column list *)
+Definition limbs_of (c : cols_t) (co j : nat) : list Z := lim (col c co) j.
